@@ -90,7 +90,8 @@ def _gen(g):
                 else:
                     script.append([k, d, g.choice(TOTALS), g.choice([-1, 0, 0, 1]), g.choice([0, 0, 1, 2]), g.chance(20)])
         actors.append(script)
-    case = {"kind": kind, "config": g.choice(["S", "S", "E", "U"]), "actors": actors}
+    case = {"kind": kind, "config": g.choice(["S", "S", "E", "U"]), "actors": actors,
+            "nest": g.choice([0, 0, 1, 2]), "adapter": g.chance(20)}
     if kind == "sem":
         case["initial"] = g.int(0, 3)
         case["max"] = g.choice([None, None, case["initial"], case["initial"] + 1])
@@ -208,8 +209,17 @@ def run_case(case) -> Outcome:
              "handoff_cancel": 0, "native": 0}
     is_sem = kind == "sem"
 
+    prebuilt = None
+    if case.get("adapter"):
+        # created outside any event loop: an adapter that binds to the backend on first use
+        prebuilt = (Semaphore(case["initial"], max_value=case["max"], fast_acquire=case["fast"]) if is_sem
+                    else CapacityLimiter(case["total"]))
+
     async def body(sim):
-        if is_sem:
+        sim.nest = case.get("nest", 0)
+        if prebuilt is not None:
+            prim = prebuilt
+        elif is_sem:
             prim = Semaphore(case["initial"], max_value=case["max"], fast_acquire=case["fast"])
         else:
             prim = CapacityLimiter(case["total"])
